@@ -119,13 +119,15 @@ void DOMElementNSImpl::setPrefix(const XMLCh *prefix)
     if (fNamespaceURI == 0 || fNamespaceURI[0] == chNull)
         throw DOMException(DOMException::NAMESPACE_ERR, 0, GetDOMNodeMemoryManager);
 
+    DOMDocumentImpl* doc = (DOMDocumentImpl*) fParent.fOwnerDocument;
+
     if (prefix == 0 || *prefix == 0) {
         fPrefix = 0;
         fName = fLocalName;
+        // the qualified name changed: live lists by tag name must notice
+        doc->changed();
         return;
     }
-
-    DOMDocumentImpl* doc = (DOMDocumentImpl*) fParent.fOwnerDocument;
 
     if(!doc->isXMLName(prefix))
         throw DOMException(DOMException::INVALID_CHARACTER_ERR,0, GetDOMNodeMemoryManager);
@@ -167,6 +169,8 @@ void DOMElementNSImpl::setPrefix(const XMLCh *prefix)
     if (newQualifiedNameLen >= 255)
         doc->getMemoryManager()->deallocate(newName);//delete[] newName;
 
+    // the qualified name changed: live lists by tag name must notice
+    doc->changed();
 }
 
 void DOMElementNSImpl::release()
